@@ -261,6 +261,9 @@ def c_cartesian(rng, sysm, pool, o):
 def _three_groups(kind, tf):
     def f(rng, sysm, pool, o):
         gs = [pick_atoms(rng, pool, rng.randint(1, 3)) for _ in range(3)]
+        if kind == "dipoleAngle" and len(gs[0]) < 2:
+            # the dipole of a single atom about its own centre is zero: documented singular geometry
+            gs[0] += pick_atoms(rng, pool, 1)
         extra = "    oneSiteTotalForce on\n" if o.get("onesite") and tf else ""
         t = "  %s {\n%s%s\n%s\n%s\n  }" % (kind, extra, group_block("group1", gs[0]), group_block("group2", gs[1]),
                                          group_block("group3", gs[2]))
